@@ -18,7 +18,10 @@ Rels(t) == IF t = "host" THEN {NoRel}
 \* legal byte-string byte), "<ff>" for the single byte 0xFF; the driver substitutes the real bytes.
 E(k, v) == [k |-> k, v |-> v]
 ExtPool == <<E("generation", "0"), E("network-cost", "10"), E("ufrag", "aB+/"), E("emptyval", ""), E("na<eacute>ve", "<eacute>"),
-             E("cur", "<euro>"), E("raw", "<ff>")>>
+             E("cur", "<euro>"), E("raw", "<ff>"),
+             \* values and keys that END in a byte sequence Unicode classes as white space but the grammar does not (only SP separates
+             \* tokens): no-break space U+00A0, horizontal tab, next line U+0085 - as the last token of the line they must survive
+             E("tail", "x<nbsp>"), E("tab", "y<ht>"), E("kend<nel>", "")>>
 \* lists of length <= n; two-element lists (distinct keys) over the first pp pool entries
 ExtLists(n, pp) == {<<>>} \cup {<<ExtPool[i]>> : i \in 1..Len(ExtPool)}
                    \cup (IF n >= 2 THEN {<<ExtPool[i], ExtPool[j]>> : i, j \in 1..pp} \ {<<ExtPool[i], ExtPool[i]>> : i \in 1..pp} ELSE {})
